@@ -41,6 +41,9 @@ func listKeys(client *api.Client, path string, waitIndex uint64, requireConsiste
 	}
 	var keys []string
 	for _, kvpair := range kvpairs {
+		if !underPath(kvpair.Key, path) {
+			continue
+		}
 		keys = append(keys, kvpair.Key)
 	}
 	return keys, meta.LastIndex, nil
@@ -57,6 +60,9 @@ func listKV(client *api.Client, path string, waitIndex uint64, separator bool, r
 	}
 	var s []string
 	for _, kvpair := range kvpairs {
+		if !underPath(kvpair.Key, path) {
+			continue
+		}
 		val := strings.TrimSpace(string(kvpair.Value))
 		if separator {
 			val = "# --- " + kvpair.Key + "\n" + val
@@ -64,6 +70,16 @@ func listKV(client *api.Client, path string, waitIndex uint64, separator bool, r
 		s = append(s, val)
 	}
 	return strings.Join(s, "\n\n"), meta.LastIndex, nil
+}
+
+// underPath reports whether key is the path itself or one of its subkeys.
+// Consul lists all keys which have the path as a string prefix: for
+// 'fabio/config' also 'fabio/config.bak' and 'fabio/configurator/ui'.
+// Neither the path nor the keys which Consul returns need a leading slash.
+func underPath(key, path string) bool {
+	key = strings.TrimPrefix(key, "/")
+	path = strings.TrimSuffix(strings.TrimPrefix(path, "/"), "/")
+	return path == "" || key == path || strings.HasPrefix(key, path+"/")
 }
 
 func getKV(client *api.Client, key string, waitIndex uint64, requireConsistent bool, allowStale bool) (string, uint64, error) {
